@@ -955,7 +955,7 @@ def check_C18(seed: int, n: int) -> dict:
             jobs.append(("random", gen.gen_schema(s, "full", tricky_comments=False, risky_names=(i % 5 == 4),
                                                  client_streaming=("none", False, True)[i % 3]), active, s ^ 0x5EED))
         for tag, sc in gen.edge_schemas():
-            if tag in ("typing-name-message", "builtin-shadow", "wkt-in-map"):
+            if tag in ("feature-cover", "typing-name-message", "builtin-shadow", "wkt-in-map"):
                 jobs.append(("edge:" + tag, sc, active, seed))
         results = parallel(jobs, _c18_job)
         for job, res in zip(jobs, results):
@@ -1269,6 +1269,7 @@ def check_C11(seed: int, n: int) -> dict:
                 continue
             nserv += k
             jobs.append(("random", schema, s ^ 0xC11))
+        jobs += [("edge:" + tag, sc, seed ^ 0xC11) for tag, sc in gen.edge_schemas() if tag == "feature-cover"]
         results = parallel(jobs, _c11_job)
         shapes = set()
         services = 0
